@@ -147,6 +147,24 @@ pub fn boundary_stream(ctx: &mut Ctx, cfg: &StreamCfg, n: u64) {
 }
 
 /// raw random bytes behind a valid header prefix, and pure noise, of all small lengths
+/// Messages as real peers send them (see `gen_realistic_message`), each followed by mutants of it
+/// (single bytes, cuts, attribute-level edits).
+pub fn realistic_stream(ctx: &mut Ctx, cfg: &StreamCfg, n: u64, mutants_per: u64) {
+    let mut rng = ctx.rng("realistic", 0);
+    for i in 0..n {
+        let (buf, creds) = gen_realistic_message(&mut rng, (i % REALISTIC_VARIANTS as u64) as u32);
+        let mut o = gen_opts(&mut rng, &buf, None, cfg.deep, cfg.typed, cfg.npolice);
+        o.creds = vec![creds.clone(), gen_creds_small(&mut rng)];
+        let out = check_buffer(ctx, &buf, &o);
+        note(ctx, "realistic", &buf, &out);
+        for _ in 0..mutants_per {
+            let m = mutate(&mut rng, &buf, None);
+            let out = check_buffer(ctx, &m, &o);
+            note(ctx, "realistic-mutant", &m, &out);
+        }
+    }
+}
+
 pub fn short_stream(ctx: &mut Ctx, cfg: &StreamCfg, reps: u64) {
     let mut rng = ctx.rng("short", 0);
     let o = Opts { creds: vec![RefCreds::Short("p".into())], police: vec![(vec![], vec![])], deep: cfg.deep, typed: cfg.typed };
